@@ -3,6 +3,8 @@ import Driver.PyJson
 import Torf.Model.ReadStream
 import Torf.Spec.RoundTrip
 import Torf.Model.Depth
+import Torf.Model.Clock
+import Torf.Model.History
 open Lean Torf Torf.Bencode Torf.Codec Torf.ReadStream Torf.Depth
 namespace Driver.C05
 
@@ -20,11 +22,39 @@ def jhex (b : Bytes) : Json := jstr (hexOf b)
 -- `utf8Keys` (every dict key valid UTF-8, at every level) is `Torf.ReadStream.utf8Keys` in
 -- `Torf/Spec/RoundTrip.lean`, the hypothesis of `C05_enc_dec` / `C05_dump_read`
 
+/-- the process clock at the document's creation date, as measured by the harness in the worker's
+    time zone: `local` = `datetime.fromtimestamp(i)` as [wall seconds, fold] (null = it raises),
+    `stamp` = `int(that.timestamp())` (null = it raises) -/
+def mkClock (c : Json) : Except String (Clock.Clock Clock.Naive) := do
+  let l := c.getObjValD "local"
+  let loc : Option Clock.Naive ← if l.isNull then pure none else do
+    let a ← l.getArr?
+    if h : a.size = 2 then
+      let w ← (a[0]).getInt?
+      let f ← (a[1]).getInt?
+      pure (some (w, f != 0))
+    else throw "clock.local must be [wall, fold]"
+  let st := c.getObjValD "stamp"
+  let stamp : Option Int ← if st.isNull then pure none else some <$> (do parseInt (← st.getStr?))
+  return { «local» := fun _ => loc, stamp := fun _ => stamp }
+
 def mkEnv (j : Json) : Except String Env := do
   let vok ← getBool j "vok"
+  let ck := j.getObjValD "clock"
+  if !ck.isNull then
+    -- setter and encoder as the explicit pair (Torf.Model.Clock)
+    return Clock.envOf (← mkClock ck) (fun _ => vok)
   let cd := j.getObjValD "cd"
   let d : Option PyVal ← if cd.isNull then pure none else some <$> pyOfJson cd
   return { fromTs := fun _ => d, validate := fun _ => vok }
+
+/-- is the measured clock lawful at the document's creation date (`Clock.lawfulAt`) -/
+def lawfulFlag (j : Json) : Except String Json := do
+  let ck := j.getObjValD "clock"
+  if ck.isNull then return Json.null
+  let i := ck.getObjValD "i"
+  if i.isNull then return Json.null
+  return jbool ((← mkClock ck).lawfulAt (← parseInt (← i.getStr?)))
 
 /-- op `c05.parse` : {x} ↦ model = flatbencode.decode(x) (value or null), strict = accepted by
     the conforming parser -/
@@ -80,7 +110,8 @@ def roundtrip (j : Json) : Except String Json := do
        ("dump", jexc jhex d),
        ("infoBytes", jexc jhex (infoBytes env md)),
        ("second", second)]
-  return jobj (fields ++ [("hyp", jbool hyp), ("flags", jobj flags), ("spec", jhex x)])
+  return jobj (fields ++ [("hyp", jbool hyp), ("flags", jobj flags), ("spec", jhex x),
+                          ("lawful", ← lawfulFlag j)])
 
 /-- op `c05.codec` : {x} ↦ decode_dict / encode_dict round trip on the parsed value -/
 def codec (j : Json) : Except String Json := do
@@ -140,12 +171,63 @@ def depthOp (j : Json) : Except String Json := do
   return jobj (fields ++ ffields ++
     [("readNeed", rneed), ("rel", jbool (relOk C sl se)), ("hyp", jbool hyp), ("flags", jobj flags)])
 
+/-- hypotheses of `C05_read_dump` / `C05_history_roundtrip` on a metainfo value, evaluated -/
+def stageHyp (env : Env) (md : List (PyVal × PyVal)) : Bool × List (String × Json) :=
+  let t := ensureInfo md
+  let wfOk := wf (.dict t)
+  let info := PyVal.lookupStr "info" t
+  let infoOk := match info with | some (.dict _) => true | _ => false
+  let piecesOk := match info with
+    | some (.dict ikvs) => (match PyVal.lookupStr "pieces" ikvs with
+      | some m => (match encodeValue m with | .ok (.bytes _) => true | _ => false)
+      | none => true)
+    | _ => true
+  let privOk := match info with
+    | some (.dict ikvs) => (match PyVal.lookupStr "private" ikvs with
+      | some m => (match encodeValue m with | .ok (.int 0) => true | .ok (.int 1) => true | _ => false)
+      | none => true)
+    | _ => true
+  let dateOk := match PyVal.lookupStr "creation date" t with
+    | some m => (match encodeValue m with
+      | .ok (.int i) => (match env.fromTs i with | some (.datetime (some j)) => j == i | _ => false)
+      | _ => false)
+    | none => true
+  (wfOk && infoOk && piecesOk && privOk && dateOk,
+   [("wf", jbool wfOk), ("infoDict", jbool infoOk), ("piecesOk", jbool piecesOk),
+    ("privateOk", jbool privOk), ("dateOk", jbool dateOk)])
+
+/-- op `c05.stage` : {md, vok, cd | clock} ↦ the exports of an object whose metainfo is `md`, as
+    functions of that value alone (`Torf.Model.History.exportOf`): dump(validate=True/False), the
+    bytes the info hash is the SHA-1 of, and the round trip of the validated dump (second read,
+    its dump, its info bytes) -/
+def stageOp (j : Json) : Except String Json := do
+  let mdv ← pyOfJson (← j.getObjVal? "md")
+  let env ← mkEnv j
+  match mdv with
+  | .dict md =>
+    let (hyp, flags) := stageHyp env md
+    let H : Bytes → Bytes := id
+    let d := History.exportOf env H (.dump true) md
+    let dnv := History.exportOf env H (.dump false) md
+    let ib := infoBytes env md
+    let second : List (String × Json) := match d with
+      | .ok y => (match read env y true with
+        | .ok md' => [("second", jobj [("ok", Json.null)]),
+                      ("secondDump", jexc jhex (dump env md' true)),
+                      ("secondInfoBytes", jexc jhex (infoBytes env md'))]
+        | .error e => [("second", jobj [("err", jstr (errName e))])])
+      | .error _ => []
+    return jobj ([("dump", jexc jhex d), ("dumpNV", jexc jhex dnv), ("infoBytes", jexc jhex ib),
+                  ("hyp", jbool hyp), ("flags", jobj flags)] ++ second)
+  | _ => throw "md must be a dict"
+
 def handle (op : String) (j : Json) : Except String Json :=
   match op with
   | "c05.parse" => parseOp j
   | "c05.roundtrip" => roundtrip j
   | "c05.codec" => codec j
   | "c05.depth" => depthOp j
+  | "c05.stage" => stageOp j
   | _ => throw s!"unknown op {op}"
 
 end Driver.C05
